@@ -30,6 +30,8 @@ pub struct ClientSim {
     pub avail: usize,
     /// ever misbehaved (closed / shut down / sent garbage)
     pub misbehaved: bool,
+    /// the server tried to write to this client and the write failed (peer shut down its read side)
+    pub write_failed: bool,
 }
 
 pub struct Held {
@@ -218,6 +220,7 @@ impl World {
             closed: false,
             avail: 0,
             misbehaved: false,
+            write_failed: false,
         });
         self.backlog.push_back(i);
         self.note(rec, &format!("client {} connect", i));
@@ -464,7 +467,14 @@ impl World {
                         } else {
                             let ci = self.by_fd.get(&p.fd).cloned();
                             let dead = ci.map(|i| self.clients[i].rd_shut || self.clients[i].closed).unwrap_or(true);
-                            if dead { "f".to_string() } else { "i".to_string() }
+                            if dead {
+                                if let Some(i) = ci {
+                                    self.clients[i].write_failed = true;
+                                }
+                                "f".to_string()
+                            } else {
+                                "i".to_string()
+                            }
                         }
                     } else {
                         "-".to_string()
